@@ -1,3 +1,5 @@
+#[cfg(huginn_net_verif_sched)]
+use huginn_net_verif_rt::std;
 pub mod error;
 pub mod filter;
 pub mod observable;
